@@ -512,9 +512,10 @@ def run(c):
         "1e-9 relative tolerance on objective coefficients (quotients), 1e-6 on optima (solver), widened by "
         "||multipliers||_1 x feasibility tolerance on ill-conditioned instances (counted)",
     ]
-    from .translate_c03 import gen_gp_objective
+    from .translate_c03 import gen_gp_objective, gen_objective_func
 
-    c.prove(extra=gen_gp_objective(c))  # + objective helpers translated from the source on every run
+    # + objective helpers and the _objective_func closures translated from the source on every run
+    c.prove(extra=gen_gp_objective(c) + gen_objective_func(c))
     t0 = time.time()
     n = c.n(60, 900)
     run_stream(c, n, solver="highs", orders=(1,))
@@ -529,9 +530,10 @@ def run(c):
 
 
 def replay(c, rp):
-    from .translate_c03 import gen_gp_objective
+    from .translate_c03 import gen_gp_objective, gen_objective_func
 
-    c.prove(extra=gen_gp_objective(c))  # + objective helpers translated from the source on every run
+    # + objective helpers and the _objective_func closures translated from the source on every run
+    c.prove(extra=gen_gp_objective(c) + gen_objective_func(c))
     items = rp.get("failures", []) + rp.get("correspondence_disagreements", [])
     pending, recs = [], []
     for f in items:
